@@ -32,6 +32,8 @@ import argparse, os, re, sys, time
 class Refuse(Exception):
     pass
 
+CURRENT = ['']      # what is being translated (for messages about errors that carry no location)
+
 def refuse(where, msg):
     raise Refuse(f"{where}: {msg}")
 
@@ -77,7 +79,7 @@ def block_end(text, i):
         elif text[j] == '}':
             depth -= 1
             if depth == 0: return j + 1
-    raise Refuse("unbalanced braces")
+    raise Refuse(f"{CURRENT[0]}: unbalanced braces")
 
 def block_after(text, header_re, where, required=True):
     """body (without the outer braces) of the first `{...}` after a match of header_re"""
@@ -373,6 +375,7 @@ def write_body(where, text, body, struct, compressed, schemas):
 
 def translate_type(name, text, schemas, label):
     """parse / write / write_compressed schemas of the RR type `name` whose (compact) source is `text`"""
+    CURRENT[0] = f"{label}: {name}"
     struct = struct_fields(text, name, f"{label}: struct {name}")
     impl = block_after(text, rf"impl(?:<[^>]*>)? ?WireFormat<[^>]*>for {name}\b(?:<[^>]*>)?\{{", f"{label}: impl WireFormat for {name}")
     w = f"{label}: {name}::"
@@ -443,6 +446,7 @@ def generate(repo):
     rmod, macros = read('simple-dns/src/dns/rdata/mod.rs'), read('simple-dns/src/dns/rdata/macros.rs')
     mdns = read('simple-mdns/src/resource_record_manager.rs')
 
+    CURRENT[0] = 'rdata/mod.rs, rdata/macros.rs'
     # 1. type codes: the rdata_enum! list, `impl RR for X { const TYPE_CODE }`, rr_wrapper! lines
     W = 'rdata/mod.rs'
     variants = [re.match(r'\w+', v).group(0) for v in split_top(block_after(rmod, r'macros::rdata_enum!\{', W))]
@@ -481,12 +485,13 @@ def generate(repo):
     kinds, names = (lambda e: lean_kind(e[0])), (lambda e: f'"{e[1]}"')
 
     # 5. constants
+    CURRENT[0] = 'constants and enums (dns/mod.rs, header.rs, name.rs, resource_record.rs, rdata/opt.rs, simple-mdns)'
     flags = [(m.group(1), num(m.group(2))) for m in re.finditer(r'const (\w+)=(\w+);', block_after(mod, r'struct PacketFlag:u16\{', 'mod.rs: PacketFlag'))]
     m = re.search(r'fn add_cached_resource\b', mdns) and re.search(r'let ttl=if resource\.cache_flush\{(\d+)\}else\{resource\.ttl\};let \w+=ExpirationInfo::new\(ttl\);', mdns)
     if not m: refuse('simple-mdns/src/resource_record_manager.rs: add_cached_resource', "TTL selection for cache-flush records not recognised")
     m2 = re.search(r'let expire_at=added\+Duration::from_(secs|millis)\(ttl\);', mdns)
     if not m2: refuse('simple-mdns/src/resource_record_manager.rs: ExpirationInfo::new', "expiry computation not recognised")
-    C, WM = (lambda t, n, w: const(t, n, w)), 'mod.rs'
+    C, WM = const, 'mod.rs'
     consts = [('maxLabel', C(mod, 'MAX_LABEL_LENGTH', WM), 'd'), ('maxName', C(mod, 'MAX_NAME_LENGTH', WM), 'd'),
               ('maxCharStr', C(mod, 'MAX_CHARACTER_STRING_LENGTH', WM), 'd'), ('maxNull', C(mod, 'MAX_NULL_LENGTH', WM), 'd'),
               ('maxSvcParam', C(mod, 'MAX_SVC_PARAM_VALUE_LENGTH', WM), 'd'),
@@ -552,6 +557,9 @@ def main():
         print(f"translate.py: cannot translate {e}", file=sys.stderr); return 2
     except OSError as e:
         print(f"translate.py: {e}", file=sys.stderr); return 2
+    except Exception as e:     # source text of a shape none of the patterns anticipated
+        print(f"translate.py: cannot translate {CURRENT[0]}: unexpected source text ({type(e).__name__}: {e})", file=sys.stderr)
+        return 2
     out = os.path.normpath(args.out)
     old = open(out, encoding='utf-8').read() if os.path.exists(out) else None
     if old != text:
